@@ -736,6 +736,37 @@ theorem C03_consumers_hold : C03_consumers_statement := by
   exact ⟨fun r _ => consumers_recipeConvert_no_panic hc to r,
     C03_parsed_recipe_group_list_no_panic env input col hcol c f to⟩
 
+/-- **C03, the quantifier "every converter": every converter the builder can produce.**  `Bld.BuiltAs files c`: the
+    builder model (C16) builds the layers `files` successfully, none of their ratios is zero, and `c` is the result read
+    as the conversion model's converter (`Bld.convOfBuilt`).  Such a converter is sound and well-formed
+    (`C16_built_converter_sound`), so — besides the empty and the bundled converter of `C03_std_converters_wf` — the
+    consumer clauses of `C03_consumers_statement` hold for it: the `new_approx` assertions hold at every call, `fit`,
+    `try_add`, `GroupedQuantity::fit` never return a panic value on any quantity, and for the recipe `parse` returns for
+    any input and environment, scaling, default scaling, converting to either system, grouping ingredients and cookware
+    and listing return without reaching a panic site. -/
+theorem C03_consumers_built (env : Env) (input : Str) {files : List (Bld.UnitsFile Rat)} {c : Converter Rat}
+    (hbuilt : Bld.BuiltAs files c) :
+    (∀ u, newApproxPre (c.fractionsConfig u).accuracy (c.fractionsConfig u).maxDen = true) ∧
+    (∀ s q, (fit c q).2 ≠ .error (.panic s)) ∧
+    (∀ s q to, (∀ x, to = .unit (.unit x) → x ∈ c.allUnits) → (convertImpl c q to).2 ≠ .error (.panic s)) ∧
+    (∀ s l r x, qTryAdd c l r = .error x → x ≠ .convert (.panic s)) ∧
+    (∀ s g, (GroupedQuantity.fit c g).2 ≠ .error (.panic s)) ∧
+    ∀ (col : Col Rat), (parseRecipe (α := Rat) env input).output = some col → ∀ (f : Rat) (to : System),
+      (∀ r ∈ [(recipeScale c col.recipe f).1, recipeDefaultScale col.recipe], ∀ e ∈ (recipeConvert c to r).2,
+        ∀ s, e ≠ .panic s) ∧
+      ∀ r ∈ [(recipeScale c col.recipe f).1, recipeDefaultScale col.recipe,
+             (recipeConvert c to (recipeScale c col.recipe f).1).1,
+             (recipeConvert c to (recipeDefaultScale col.recipe)).1],
+        (∃ es, groupIngredients c r = some es) ∧
+        (∀ (ord : MapOrder Rat) (m : IngredientList Rat), ∃ m', addRecipe ord c m r = some m') ∧
+        (∀ k ∈ r.cookware, ∃ g, groupAmounts r.cookware k = some g) := by
+  obtain ⟨h1, h2, h3, h4, h5⟩ := (C03_consumers_hold env input).2.2.2.2.2 c hbuilt.sound hbuilt.wf
+  exact ⟨h1, h2, fun s q to hto => (C03_convert_fit_add_no_panic hbuilt.sound s).1 q to hto, h3, h4, h5⟩
+
+/-- … in particular every such converter satisfies the hypotheses `Sound` / `wf` of the consumer theorems above -/
+theorem C03_built_converter_sound {files : List (Bld.UnitsFile Rat)} {c : Converter Rat} (hbuilt : Bld.BuiltAs files c) :
+    c.Sound ∧ c.wf = true := ⟨hbuilt.sound, hbuilt.wf⟩
+
 /-! non-vacuity: the hypothesis `Sound` is satisfiable (both converters above), and the panic value the
     theorems exclude is producible by a converter that is not sound — a best list holding a unit of
     another physical quantity makes `convert_f64`'s assertion fire in the model -/
